@@ -220,7 +220,12 @@ def run(chk):
             case = dict(format=fmt, defect=name, force=force, output_format=ofmt, input_text=t, exit=r["exit"], signal=r["signal"], stdout=r["stdout"][-1500:], stderr=r["stderr"][:1500])
             single = name if ncomb == 1 else "pair"
             cell = "%s|CLI|%s|force%d" % ("MSSM:" + fmt if mssm else "THDM", single, force)
-            if r["signal"] or r["timeout"] or r["exit"] not in (0, 1):
+            if r["timeout"]:   # twice over the watchdog limit: inconclusive here (termination is C14's clause), never a verdict
+                chk.conclusive -= 1
+                chk.inconclusive += 1
+                chk.harness_errors.append("gm2calc.x exceeded the watchdog limit twice (%s, %s): inconclusive" % (fmt, name))
+                continue
+            if r["signal"] or r["exit"] not in (0, 1):
                 chk.add_cell(cell, 1, 1)
                 chk.add_fail("C16:CLI:abnormal-termination", "%s: exit=%s signal=%s" % (name, r["exit"], r["signal"]), case)
                 continue
